@@ -537,14 +537,33 @@ def run(prop):
     seed = int(os.environ.get("VERIF_SEED", "1") or "1")
     t0 = time.time()
     pid = prop.pid
+    st = {}
     try:
-        return _run(prop, a, tier, seed, t0)
-    except MachineryBroken as e:
-        print("MACHINERY-BROKEN property=%s: %s" % (pid, e))
-        return 2
+        return _run(prop, a, tier, seed, t0, st)
+    except Exception as e:
+        import traceback
+        if not st.get("proofs_done") or a.replay:
+            # audit / Coq build / pins: independent of /repo, so this is the machinery itself
+            print("MACHINERY-BROKEN property=%s: %s" % (pid, e if isinstance(e, MachineryBroken) else traceback.format_exc()))
+            return 2
+        # The proofs checked, but the correspondence run against /repo's working tree could not be
+        # completed (the driver does not build against this tree, crashed, timed out or printed
+        # something the encoders cannot read).  The theorems are about the model; with the tie to
+        # the code gone the property is no longer shown to hold for this tree.
+        msg = str(e) if isinstance(e, MachineryBroken) else traceback.format_exc()
+        path = write_replay(prop, "corr-broken", dict(
+            what="the correspondence check could not be run to completion against /repo's working tree; no failing input was found because none could be evaluated",
+            broken="correspondence %s/%s.v vs harness %s/%s built from /repo (theorems in %s/Properties.v no longer shown to apply)" % (
+                pid, prop.exec_mod, prop.pkg, prop.binname, pid),
+            detail=msg[-6000:], seed=seed, no_failing_input=True))
+        cov = dict(st.get("cov", {}))
+        cov.update({"evaluations": 0, "correspondence": "not completed: " + msg[-500:]})
+        write_evidence(prop, tier, seed, cov, time.time() - t0, 1)
+        print("VIOLATION property=%s replay=%s no-failing-input-found" % (pid, path))
+        return 1
 
 
-def _run(prop, a, tier, seed, t0):
+def _run(prop, a, tier, seed, t0, st):
     pid = prop.pid
     # 1. audit + proofs
     problems = audit_coq(pid)
@@ -564,6 +583,10 @@ def _run(prop, a, tier, seed, t0):
             raise MachineryBroken("coqchk failed:\n" + out[-3000:])
     else:
         coqchk = None
+    st["proofs_done"] = True
+    st["cov"] = {"obligations": obligations, "discharged": discharged, "print_assumptions": assum_text.strip()[-4000:],
+                 "checker_cmd": "make -f Makefile.coq %s/Properties.vo && coqc %s/Pins.v" % (pid, pid),
+                 "trusted_base": BASE_TRUSTED + list(prop.trusted_extra)}
     # 2. harness
     binpath = harness_build(prop.pkg, prop.binname)
 
